@@ -17,6 +17,7 @@ static double now_wall()
 }
 
 static std::string g_verif = "/verif";
+static std::string g_out = "/verif"; // where evidence and replay files go (SNAPSIM_OUT for trial runs against seeded patches)
 static std::string g_shm;
 
 #ifdef SIM_SAN
@@ -358,8 +359,8 @@ static int do_check(const std::string& prop, int tier, uint64_t base_seed, int j
 			}
 		}
 		reported_classes.insert(cls);
-		mkdir((g_verif + "/replays").c_str(), 0755);
-		std::string path = g_verif + strf("/replays/%s-%s-%llu.json", prop.c_str(), v.str("family").c_str(), (unsigned long long)v.num("seed"));
+		mkdir((g_out + "/replays").c_str(), 0755);
+		std::string path = g_out + strf("/replays/%s-%s-%llu.json", prop.c_str(), v.str("family").c_str(), (unsigned long long)v.num("seed"));
 		Json rep = Json::obj();
 		rep.set("property", prop).set("class", cls).set("message", mv ? mv->str("msg") : msg).set("family", v.str("family")).set("run_seed", v.at("seed"))
 			.set("verif_seed", base_seed).set("digest", rm.at("digest")).set("original_ops", (uint64_t)p.ops.size()).set("minimised_ops", (uint64_t)m.ops.size())
@@ -410,9 +411,9 @@ static int do_check(const std::string& prop, int tier, uint64_t base_seed, int j
 	ev.set("coverage", cov);
 	ev.set("assumptions", Json::arr().push("crash model = process death on a page-cache file system (completed calls persist)").push("arrays are small (<= 8 disks, <= 48 stripes, 1-2 KiB blocks)").push("oracles: independent content decoder, GF(2^8) generator, pinned reference hashes, harness copy of every file version"));
 	ev.set("wall_s", wall).set("violations", violations);
-	mkdir((g_verif + "/evidence").c_str(), 0755);
+	mkdir((g_out + "/evidence").c_str(), 0755);
 	// when a single family is run for debugging do not overwrite the evidence
-	if (only_family.empty() && runs_override <= 0) write_file(g_verif + "/evidence/" + prop + ".json", ev.dump(1));
+	if (only_family.empty() && runs_override <= 0) write_file(g_out + "/evidence/" + prop + ".json", ev.dump(1));
 	else write_file(g_shm + "/evidence-debug.json", ev.dump(1));
 
 	printf("check %s tier=%s runs=%llu cases=%llu commands=%llu distinct_nontrivial=%llu interleavings=%zu violations=%d cross=%zu wall=%.1fs\n", prop.c_str(), tier ? "thorough" : "quick",
@@ -573,6 +574,8 @@ int main(int argc, char** argv)
 	if (!sim_shared_create()) { fprintf(stderr, "cannot map shared state\n"); return 2; }
 	setvbuf(stdout, 0, _IOLBF, 0);
 	if (getenv("SNAPSIM_VERIF")) g_verif = getenv("SNAPSIM_VERIF");
+	g_out = g_verif;
+	if (getenv("SNAPSIM_OUT")) { g_out = getenv("SNAPSIM_OUT"); mkdir(g_out.c_str(), 0755); }
 	g_shm = strf("/dev/shm/snapsim.%d", (int)getpid());
 	rm_rf(g_shm);
 	mkdir(g_shm.c_str(), 0755);
